@@ -4,10 +4,4 @@ import "go/types"
 
 type typesPackage = types.Package
 
-func cmdReplay(args []string) int   { return 2 }
 func cmdSelftest(args []string) int { return 2 }
-
-func (e *Engine) replayOnRealCode(o *Oblig, vals map[string]string, sb interface{ WriteString(string) (int, error) }) bool {
-	sb.WriteString("replay on the real code: not available for this function shape\n")
-	return false
-}
